@@ -33,6 +33,7 @@ type hubPre struct {
 	mdnsHadA         bool
 	closedRegistered bool
 	shipIDA0         string // SHIP ID the application supplied for A ("" = none)
+	reportedState    int    // ship state carried by the state update of this step
 	delayedCounter   int    // counter carried by the delayed dial of this step
 	counterA0        int
 }
@@ -109,6 +110,7 @@ func (p *hubPre) doOp(op int, x string) {
 		h.SetAutoAccept(zzvrt.Bool("op.auto"))
 	case opStateUpdate:
 		sv := zzvrt.Choice("op.state", 40)
+		p.reportedState = sv
 		if !isReportable(sv) {
 			zzvrt.Assume(false) // a connection only reports states it enters; InitStart and the unused constants are never entered (C04)
 		}
@@ -205,12 +207,15 @@ func H_Hub_Step() {
 	}
 
 	// ---- C01 (hub part): trust is only switched on by register or by a hello-ok report
+	// (a state report switches trust on only when it is hello-ok, the state a connection reaches after the local side
+	// granted trust; no other state - in particular none the remote can cause while a request is pending - does)
+	helloOk := int(model.SmeHelloStateOk)
 	if !p.trustA0 && p.sA.Trusted() {
-		ok := (op == opRegister && onA) || (op == opStateUpdate && onA)
+		ok := (op == opRegister && onA) || (op == opStateUpdate && onA && p.reportedState == helloOk)
 		zzvrt.Assert(ok, "C01.trust-set-by-other-operation")
 	}
 	if !p.trustB0 && p.sB.Trusted() {
-		ok := (op == opRegister && !onA) || (op == opStateUpdate && !onA)
+		ok := (op == opRegister && !onA) || (op == opStateUpdate && !onA && p.reportedState == helloOk)
 		zzvrt.Assert(ok, "C01.trust-set-by-other-operation")
 	}
 	zzvrt.Assert(h.IsAutoAcceptEnabled() == h.autoaccept, "C01.autoaccept-query")
